@@ -39,6 +39,7 @@ ALPHABET = [
     ("write", "a", b"a2\n"), ("write", "d/b", b"b2\n"), ("write", "d", b"d2\n"),
     ("chmod", "a"), ("chmod", "x"),
     ("addfile", "n", b"n1\n"), ("addfile", "d/n", b"n1\n"), ("adddir", "e"), ("addfile", "e/n", b"n1\n"),
+    ("addfile", "d", b"n1\n"),
     ("addlink", "m", "a"), ("unknown", "u", b"u1\n"),
     ("remove", "a"), ("remove", "d/b"), ("remove", "l"), ("remove", "d"),
     ("unversion", "a"), ("rmdisk", "a"), ("rmdisk", "d/b"),
@@ -229,8 +230,9 @@ def classify(basis, work, specific, exclude):
             cls[fid] = "sel"
         else:
             cls[fid] = "amb"
-    # path closure: an id sitting (in either tree) at the old or new path of a possibly selected id is
-    # involved in the same paths; the statement does not say whether it is selected
+    # path closure: an id sitting (in either tree) at or below the old or new path of a possibly selected
+    # id is involved in the same paths (e.g. the former children of a selected renamed directory); the
+    # statement does not say whether it is selected
     changed = True
     while changed:
         changed = False
@@ -239,8 +241,9 @@ def classify(basis, work, specific, exclude):
             if c != "unsel":
                 touched.update(p for p in (bpaths.get(fid), wpaths.get(fid)) if p is not None)
         for fid, c in cls.items():
-            if c == "unsel" and (bpaths.get(fid) in touched or wpaths.get(fid) in touched):
-                old, new = bpaths.get(fid), wpaths.get(fid)
+            old, new = bpaths.get(fid), wpaths.get(fid)
+            if c == "unsel" and ((old is not None and W.inside_any(old, touched))
+                                 or (new is not None and W.inside_any(new, touched))):
                 if not ((old is None or W.inside_any(old, exclude)) and (new is None or W.inside_any(new, exclude))):
                     cls[fid] = "amb"
                     changed = True
